@@ -94,8 +94,10 @@ def run_case(case, ctx):
         d["shared_bath"] = False
         if N == 1:
             t = build.timeaxis(d)
+            # the ground-state energy of a molecule need not be the zero of energy: only the transition energy matters
+            g0 = [0.0, 0.0, 1500.0, -730.0][case["seed"] % 4]
             with qr.energy_units("1/cm"):
-                mol = qr.Molecule([0.0, float(d["E"][0])])
+                mol = qr.Molecule([g0, g0 + float(d["E"][0])])
             mol.set_dipole(0, 1, [float(x) for x in d["dip"][0]])
             cf = build.make_cf(t, d["bath"][0])
             mol.set_transition_environment((0, 1), cf)
